@@ -147,36 +147,37 @@ Proof. intros. unfold coll_recs. apply in_flat_map. Qed.
 Lemma in_coll_adds : forall c m i, In i (coll_adds c m) <-> exists l, In l (layers c) /\ In i (adds l m).
 Proof. intros. unfold coll_adds. apply in_flat_map. Qed.
 
-Theorem register_never_sound : forall c m, coll_shape c ->
+Theorem register_never_sound : forall c m, coll_shape c -> F12Free c m ->
   fst (c_register (haspsf c) c m None) = INever ->
   forall st r, In r (coll_recs c) -> globals_accept c st m && chain_accept st 0 (snd r) m = false.
 Proof.
-  intros c m Hs Hr st r Hin.
+  intros c m Hs [HFg HFr] Hr st r Hin.
   destruct (gnever m (coll_globs c)) eqn:Hg.
   - unfold gnever in Hg. apply existsb_exists in Hg. destruct Hg as [g [Hgin Hgn]].
     assert (E : f_interest g m = INever) by (destruct (f_interest g m); simpl in Hgn; congruence).
     assert (Hga : globals_accept c st m = false).
     { unfold globals_accept. destruct (forallb _ _) eqn:F; auto. rewrite forallb_forall in F.
-      pose proof (F g Hgin) as Hx. rewrite (proj2 (f_interest_sound g m) E) in Hx. discriminate. }
+      pose proof (F g Hgin) as Hx. rewrite (proj2 (f_interest_sound g m (HFg g Hgin)) E) in Hx. discriminate. }
     rewrite Hga. reflexivity.
   - destruct (c_never _ _ _ _ Hs Hg Hr) as (_ & Hpsf & Hsum).
     destruct (psum_never _ _ Hsum) as [_ Hall].
+    pose proof (HFr r) as HFr0. pose proof Hin as Hin0.
     apply in_coll_recs in Hin. destruct Hin as [l [Hl Hrl]].
     rewrite forallb_forall in Hpsf. pose proof (Hpsf l Hl) as Hp.
     destruct r as [[n v] ch].
     destruct (psf_adds_never l m Hp) with (n := n) (v := v) (ch := ch) as (k & f & ch' & E & Hf); auto.
     { intros i Hi. apply Hall. apply in_coll_adds. eauto. }
-    subst ch. simpl snd. rewrite (chain_head_never k f ch' m st 0 Hf). apply andb_false_r.
+    subst ch. simpl snd. rewrite (chain_head_never k f ch' m st 0 (HFr0 (k, f) Hin0 (or_introl eq_refl)) Hf). apply andb_false_r.
 Qed.
 
-Theorem register_always_sound : forall c m, coll_shape c ->
+Theorem register_always_sound : forall c m, coll_shape c -> F12Free c m ->
   fst (c_register (haspsf c) c m None) = IAlways ->
   forall st, globals_accept c st m = true /\ forall r, In r (coll_recs c) -> chain_accept st 0 (snd r) m = true.
 Proof.
-  intros c m Hs Hr st.
+  intros c m Hs [HFg HFr] Hr st.
   destruct (c_always _ _ _ _ Hs Hr) as [Hna Hsum]. split.
   - unfold globals_accept. apply forallb_forall. intros g Hg.
-    apply (proj1 (f_interest_sound g m)).
+    apply (proj1 (f_interest_sound g m (HFg g Hg))).
     unfold gnotalways in Hna. destruct (f_interest g m) eqn:E; auto; exfalso;
       assert (X : existsb (fun g => negb (is_always (f_interest g m))) (coll_globs c) = true)
         by (apply existsb_exists; exists g; rewrite E; auto); congruence.
@@ -187,7 +188,8 @@ Proof.
       - destruct (Hsum eq_refl) as [E|E].
         + apply psum_none in E. destruct E as [_ E]. rewrite E. intros i [].
         + apply psum_always in E. destruct E as [_ E]. exact E. }
-    intros r Hin. apply in_coll_recs in Hin. destruct Hin as [l [Hl Hrl]]. destruct r as [[n v] ch].
-    apply chain_all_always. eapply adds_all_always; eauto.
+    intros r Hin. pose proof (HFr r) as HFr0. pose proof Hin as Hin0.
+    apply in_coll_recs in Hin. destruct Hin as [l [Hl Hrl]]. destruct r as [[n v] ch].
+    apply chain_all_always; [intros e He; apply (HFr0 e Hin0 He)|]. eapply adds_all_always; eauto.
     intros i Hi. apply Hall. apply in_coll_adds. eauto.
 Qed.
